@@ -1,6 +1,11 @@
 package rules
 
 import (
+	"fmt"
+	"go/token"
+	"go/types"
+	"strings"
+
 	"golang.org/x/tools/go/ssa"
 
 	"verif/checker/internal/ir"
@@ -14,6 +19,8 @@ func init() {
 var pkcs7Facts = []*fact{factIssuer, factSerial, factSignature, factContentDigest}
 
 func checkC04(c *Ctx) {
+	c.ruleFrozen("A.frozen")
+	c.R.Floor("A.frozen", 5)
 	e := c.accept()
 	if fn := c.Fn("A", "pkcs7.(*PKCS7).Verify"); fn != nil {
 		e.Require("A", fn, pkcs7Facts)
@@ -100,6 +107,8 @@ func (c *Ctx) sameSigner(fn *ssa.Function) {
 func checkC02(c *Ctx) {
 	// the digest that is compared covers exactly the bytes being verified (shared with C01)
 	checkC01(c)
+	c.ruleFrozen("A.frozen")
+	c.R.Floor("A.frozen", 5)
 	e := c.accept()
 	all := append([]*fact{factImageDigest, factDigestAlg}, pkcs7Facts...)
 	if fn := c.Fn("A", "authenticode.(*PECOFFBinary).Verify"); fn != nil {
@@ -159,4 +168,137 @@ func checkC02(c *Ctx) {
 	c.R.Floor("A.signature", 2)
 	c.R.Floor("A.content-digest", 2)
 	c.R.Floor("A.bind", 3)
+}
+
+// ruleFrozen (A.frozen): a parsed signature object is not modified after it was
+// built. Its fields are written — by a store, or by a consuming read on a
+// cryptobyte.String / buffer field — only while the object is still local to
+// the function that constructs it (or to a helper that is only handed such
+// fresh objects). A later write (for instance a parser step that reads from a
+// field in place) changes what the digest and signature checks see.
+func (c *Ctx) ruleFrozen(rule string) {
+	frozen := map[string]bool{pkcsPkg + ".PKCS7": true, pkcsPkg + ".signerinfo": true, pkcsPkg + ".Attributes": true,
+		pkcsPkg + ".issuerAndSerialNumber": true, M + "/authenticode.Authenticode": true}
+	typeOfField := func(addr ssa.Value) string {
+		fa, ok := addr.(*ssa.FieldAddr)
+		if !ok {
+			return ""
+		}
+		t := fa.X.Type()
+		if p, isP := t.Underlying().(*types.Pointer); isP {
+			t = p.Elem()
+		}
+		return ir.NamedTypeID(t)
+	}
+	// the address (or an address inside) a field of a frozen type
+	var frozenField func(addr ssa.Value, depth int) (*ssa.FieldAddr, bool)
+	frozenField = func(addr ssa.Value, depth int) (*ssa.FieldAddr, bool) {
+		if depth > 6 {
+			return nil, false
+		}
+		switch x := addr.(type) {
+		case *ssa.FieldAddr:
+			if frozen[typeOfField(x)] {
+				return x, true
+			}
+			return frozenField(x.X, depth+1)
+		case *ssa.IndexAddr:
+			return frozenField(x.X, depth+1)
+		case *ssa.UnOp:
+			// element of a slice held in a frozen field
+			if x.Op == token.MUL {
+				return frozenField(x.X, depth+1)
+			}
+		}
+		return nil, false
+	}
+	var fresh func(fn *ssa.Function, v ssa.Value, depth int) bool
+	fresh = func(fn *ssa.Function, v ssa.Value, depth int) bool {
+		switch x := ir.RootOf(v).(type) {
+		case *ssa.Alloc:
+			return true
+		case *ssa.Parameter:
+			if depth > 2 || fn.Object() != nil && fn.Object().Exported() {
+				return false
+			}
+			node := c.P.CallGraph().Nodes[fn]
+			if node == nil || len(node.In) == 0 {
+				return false
+			}
+			idx := -1
+			for k, p := range fn.Params {
+				if p == x {
+					idx = k
+				}
+			}
+			for _, in := range node.In {
+				if in.Site == nil || !c.P.InLib(in.Caller.Func) {
+					return false
+				}
+				args := ir.CallArgs(in.Site)
+				if idx < 0 || idx >= len(args) || !fresh(in.Caller.Func, args[idx], depth+1) {
+					return false
+				}
+			}
+			return true
+		case *ssa.UnOp:
+			// a pointer kept in a local cell: what was stored there
+			if a, ok := x.X.(*ssa.Alloc); ok && x.Op == token.MUL {
+				all, n := true, 0
+				for _, r := range *a.Referrers() {
+					if st, isSt := r.(*ssa.Store); isSt && st.Addr == ssa.Value(a) {
+						n++
+						all = all && fresh(fn, st.Val, depth+1)
+					}
+				}
+				return n > 0 && all
+			}
+		}
+		return false
+	}
+	n := 0
+	counts := map[string]int{}
+	for _, fn := range c.P.LibFunctions() {
+		if !(strings.HasPrefix(name(fn), "pkcs7.") || strings.HasPrefix(name(fn), "(*pkcs7.") || strings.HasPrefix(name(fn), "authenticode.") || strings.HasPrefix(name(fn), "(*authenticode.") || strings.Contains(name(fn), "efi/signature.")) {
+			continue
+		}
+		fn := fn
+		instrsOf(fn, func(i ssa.Instruction) {
+			var addr ssa.Value
+			how := ""
+			switch x := i.(type) {
+			case *ssa.Store:
+				addr, how = x.Addr, "store"
+			case *ssa.Call:
+				id := ir.CallID(x)
+				if len(x.Call.Args) == 0 {
+					return
+				}
+				if strings.HasPrefix(id, cbPkg+".String.") && !strings.HasSuffix(id, ".Empty") && !strings.Contains(id, ".Peek") {
+					addr, how = x.Call.Args[0], "consuming read ("+strings.TrimPrefix(id, cbPkg+".")+")"
+				} else if idxs, isMut := mutatingCalls[id]; isMut {
+					for _, k := range idxs {
+						if k < len(x.Call.Args) {
+							if _, isF := frozenField(x.Call.Args[k], 0); isF {
+								addr, how = x.Call.Args[k], id
+							}
+						}
+					}
+				}
+			}
+			if addr == nil {
+				return
+			}
+			fa, isF := frozenField(addr, 0)
+			if !isF {
+				return
+			}
+			n++
+			key := ordinalKey(counts, name(fn)+":"+ir.FieldID(fa))
+			c.R.Check(fresh(fn, fa.X, 0), rule, name(fn), strings.TrimPrefix(key, name(fn)+":"), c.IPos(i),
+				"fields of a parsed signature object are written only while it is being constructed",
+				how+" on "+shortID(ir.FieldID(fa))+" of an object that was not built in this function: the parsed object changes after parsing, so a later check sees different content than the one that was parsed")
+		})
+	}
+	c.R.Infof(rule, "-", "scan", "-", fmt.Sprintf("writes to fields of parsed signature objects examined: %d", n))
 }
